@@ -5,6 +5,7 @@ import TantivyModel.Proofs.DocSet.SimpleUnion
 import TantivyModel.Proofs.DocSet.IntersectionScore
 import TantivyModel.Proofs.DocSet.BufferedUnionFill
 import TantivyModel.Proofs.DocSet.Construct
+import TantivyModel.Proofs.DocSet.Disjunction
 import TantivyModel.Model.DocSet.Tree
 /-! composition: every scorer tree (any nesting depth) built from the proved combinators over
 sorted-vector / bitset leaves refines the sorted-list cursor -/
@@ -142,7 +143,7 @@ theorem ScoreOK.restrict {D : DS σ} {V : σ → List Nat → Prop} {W : σ → 
 namespace Comb
 variable {C : DS σ} {VC : σ → List Nat → Prop} {WC : σ → Nat → List Nat → Prop}
 
-/-- valid states of a node; nodes holding a `Disjunction` (whose `Lawful` proof is open) are excluded -/
+/-- valid states of a node -/
 def V (VC : σ → List Nat → Prop) (WC : σ → Nat → List Nat → Prop) : Comb σ → List Nat → Prop
   | .leaf s, l => VC s l
   | .bunion u, l => BUnion.V VC H u l
@@ -150,7 +151,7 @@ def V (VC : σ → List Nat → Prop) (WC : σ → Nat → List Nat → Prop) : 
   | .inter i, l => Inter.V VC WC i l
   | .excl e, l => Exclude.V VC VC WC e l
   | .reqopt r, l => ReqOpt.V VC r l
-  | .disj _, _ => False
+  | .disj d, l => Disj.V VC d l
 
 def W (VC : σ → List Nat → Prop) (WC : σ → Nat → List Nat → Prop) : Comb σ → Nat → List Nat → Prop
   | .leaf s, t, l => WC s t l
@@ -159,7 +160,7 @@ def W (VC : σ → List Nat → Prop) (WC : σ → Nat → List Nat → Prop) : 
   | .inter i, t, l => Inter.W VC WC i t l
   | .excl e, t, l => defaultW (Exclude.V VC VC WC) e t l
   | .reqopt r, t, l => ReqOpt.W WC r t l
-  | .disj _, _, _ => False
+  | .disj d, t, l => defaultW (Disj.V VC) d t l
 
 theorem lawful (hC : Lawful C VC WC) (hS : ScoreOK C VC WC) (hsmall : ∀ {c l}, VC c l → Small l)
     (fx : Fix) : Lawful (Comb.ds C fx) (V VC WC) (W VC WC) := by
@@ -169,6 +170,7 @@ theorem lawful (hC : Lawful C VC WC) (hS : ScoreOK C VC WC) (hsmall : ∀ {c l},
   have hIN := Inter.lawful hC (fun h => hsmall h) fx
   have hEX := Exclude.lawful hC hC
   have hRO := ReqOpt.lawful (O := C) hC
+  have hDJ := Disj.lawful hC (fun h => hS.v h)
   exact {
     sorted := by
       intro s l h
@@ -179,7 +181,7 @@ theorem lawful (hC : Lawful C VC WC) (hS : ScoreOK C VC WC) (hsmall : ∀ {c l},
       | inter i => exact hIN.sorted h
       | excl e => exact hEX.sorted h
       | reqopt r => exact hRO.sorted h
-      | disj d => exact h.elim
+      | disj d => exact hDJ.sorted h
     doc_eq := by
       intro s l h
       cases s with
@@ -189,7 +191,7 @@ theorem lawful (hC : Lawful C VC WC) (hS : ScoreOK C VC WC) (hsmall : ∀ {c l},
       | inter i => exact hIN.doc_eq h
       | excl e => exact hEX.doc_eq h
       | reqopt r => exact hRO.doc_eq h
-      | disj d => exact h.elim
+      | disj d => exact hDJ.doc_eq h
     advance := by
       intro s l h
       cases s with
@@ -199,7 +201,7 @@ theorem lawful (hC : Lawful C VC WC) (hS : ScoreOK C VC WC) (hsmall : ∀ {c l},
       | inter i => exact hIN.advance h
       | excl e => exact hEX.advance h
       | reqopt r => exact hRO.advance h
-      | disj d => exact h.elim
+      | disj d => exact hDJ.advance h
     seek := by
       intro s l t h hd ht
       cases s with
@@ -209,7 +211,7 @@ theorem lawful (hC : Lawful C VC WC) (hS : ScoreOK C VC WC) (hsmall : ∀ {c l},
       | inter i => exact hIN.seek h hd ht
       | excl e => exact hEX.seek h hd ht
       | reqopt r => exact hRO.seek h hd ht
-      | disj d => exact h.elim
+      | disj d => exact hDJ.seek h hd ht
     fillBuffer := by
       intro s l h
       cases s with
@@ -219,7 +221,7 @@ theorem lawful (hC : Lawful C VC WC) (hS : ScoreOK C VC WC) (hsmall : ∀ {c l},
       | inter i => exact hIN.fillBuffer h
       | excl e => exact hEX.fillBuffer h
       | reqopt r => exact hRO.fillBuffer h
-      | disj d => exact h.elim
+      | disj d => exact hDJ.fillBuffer h
     fillBitset := by
       intro s l m h hd hm
       cases s with
@@ -229,7 +231,7 @@ theorem lawful (hC : Lawful C VC WC) (hS : ScoreOK C VC WC) (hsmall : ∀ {c l},
       | inter i => exact hIN.fillBitset h hd hm
       | excl e => exact hEX.fillBitset h hd hm
       | reqopt r => exact hRO.fillBitset h hd hm
-      | disj d => exact h.elim
+      | disj d => exact hDJ.fillBitset h hd hm
     count := by
       intro s l h
       cases s with
@@ -239,7 +241,7 @@ theorem lawful (hC : Lawful C VC WC) (hS : ScoreOK C VC WC) (hsmall : ∀ {c l},
       | inter i => exact hIN.count h
       | excl e => exact hEX.count h
       | reqopt r => exact hRO.count h
-      | disj d => exact h.elim
+      | disj d => exact hDJ.count h
     wsorted := by
       intro s t0 l h
       cases s with
@@ -249,7 +251,7 @@ theorem lawful (hC : Lawful C VC WC) (hS : ScoreOK C VC WC) (hsmall : ∀ {c l},
       | inter i => exact hIN.wsorted h
       | excl e => exact hEX.wsorted h
       | reqopt r => exact hRO.wsorted h
-      | disj d => exact h.elim
+      | disj d => exact hDJ.wsorted h
     wdoc := by
       intro s t0 l h
       cases s with
@@ -259,7 +261,7 @@ theorem lawful (hC : Lawful C VC WC) (hS : ScoreOK C VC WC) (hsmall : ∀ {c l},
       | inter i => exact hIN.wdoc h
       | excl e => exact hEX.wdoc h
       | reqopt r => exact hRO.wdoc h
-      | disj d => exact h.elim
+      | disj d => exact hDJ.wdoc h
     wseek := by
       intro s t0 l t h h0 hd ht
       cases s with
@@ -269,7 +271,7 @@ theorem lawful (hC : Lawful C VC WC) (hS : ScoreOK C VC WC) (hsmall : ∀ {c l},
       | inter i => exact hIN.wseek h h0 hd ht
       | excl e => exact hEX.wseek h h0 hd ht
       | reqopt r => exact hRO.wseek h h0 hd ht
-      | disj d => exact h.elim
+      | disj d => exact hDJ.wseek h h0 hd ht
     sdV := by
       intro s l t h ht
       cases s with
@@ -279,7 +281,7 @@ theorem lawful (hC : Lawful C VC WC) (hS : ScoreOK C VC WC) (hsmall : ∀ {c l},
       | inter i => exact SDPost.map Comb.inter (fun _ _ h => h) (fun _ _ _ h => h) (hIN.sdV h ht)
       | excl e => exact SDPost.map Comb.excl (fun _ _ h => h) (fun _ _ _ h => h) (hEX.sdV h ht)
       | reqopt r => exact SDPost.map Comb.reqopt (fun _ _ h => h) (fun _ _ _ h => h) (hRO.sdV h ht)
-      | disj d => exact h.elim
+      | disj d => exact SDPost.map Comb.disj (fun _ _ h => h) (fun _ _ _ h => h) (hDJ.sdV h ht)
     sdW := by
       intro s t0 l t h h0 ht
       cases s with
@@ -289,7 +291,7 @@ theorem lawful (hC : Lawful C VC WC) (hS : ScoreOK C VC WC) (hsmall : ∀ {c l},
       | inter i => exact SDPost.map Comb.inter (fun _ _ h => h) (fun _ _ _ h => h) (hIN.sdW h h0 ht)
       | excl e => exact SDPost.map Comb.excl (fun _ _ h => h) (fun _ _ _ h => h) (hEX.sdW h h0 ht)
       | reqopt r => exact SDPost.map Comb.reqopt (fun _ _ h => h) (fun _ _ _ h => h) (hRO.sdW h h0 ht)
-      | disj d => exact h.elim
+      | disj d => exact SDPost.map Comb.disj (fun _ _ h => h) (fun _ _ _ h => h) (hDJ.sdW h h0 ht)
   }
 
 theorem scoreOK (hS : ScoreOK C VC WC) (fx : Fix) : ScoreOK (Comb.ds C fx) (V VC WC) (W VC WC) where
@@ -302,7 +304,7 @@ theorem scoreOK (hS : ScoreOK C VC WC) (fx : Fix) : ScoreOK (Comb.ds C fx) (V VC
     | inter i => exact (Inter.scoreOK hS fx).v h
     | excl e => exact (Exclude.scoreOK hS).v h
     | reqopt r => exact (ReqOpt.scoreOK hS).v h
-    | disj d => exact h.elim
+    | disj d => exact h
   w := by
     intro c t l h
     cases c with
@@ -312,7 +314,7 @@ theorem scoreOK (hS : ScoreOK C VC WC) (fx : Fix) : ScoreOK (Comb.ds C fx) (V VC
     | inter i => exact (Inter.scoreOK hS fx).w h
     | excl e => exact (Exclude.scoreOK hS).w h
     | reqopt r => exact (ReqOpt.scoreOK hS).w h
-    | disj d => exact h.elim
+    | disj d => exact h
 
 end Comb
 
@@ -363,7 +365,7 @@ theorem mapM_all2 {α β γ : Type} {f : α → Option β} {P : β → γ → Pr
     exact ⟨b :: bs, by simp [List.mapM_cons, hb, hbs], All2.cons hP hA⟩
 
 /-- the sorted document list a tree description denotes (a relation: the union is specified by its
-members); `Disjunction` nodes denote nothing here (open) -/
+members, the minimum-should-match disjunction by the number of children containing a document) -/
 def Den : Nat → Tree → List Nat → Prop
   | 0, .vec docs _, l => l = docs ∧ Sorted docs ∧ Small docs
   | 0, .bits docs mx _, l => l = docs ∧ Sorted docs ∧ (∀ d ∈ docs, d < mx) ∧ Small docs
@@ -376,7 +378,7 @@ def Den : Nat → Tree → List Nat → Prop
       ∧ All2 (Den n) tos los ∧ l = Inter.Common ll lr los
   | n + 1, .excl u es, l => ∃ lu les, Den n u lu ∧ All2 (Den n) es les ∧ l = lu.filter (Exclude.ok les)
   | n + 1, .reqopt _ req opt, l => Den n req l ∧ ∃ lo, Den n opt lo
-  | _ + 1, .disj _ _ _, _ => False
+  | n + 1, .disj _ k cs, l => ∃ ls, All2 (Den n) cs ls ∧ 1 ≤ k ∧ Sorted l ∧ ∀ x, x ∈ l ↔ k ≤ Disj.cnt x ls
 
 theorem small_union {U : List Nat} {ls : List (List Nat)} (hU : SimpleUnion.IsUnion U ls)
     (hs : ∀ li ∈ ls, Small li) : Small U := by
@@ -445,6 +447,14 @@ theorem build_valid (fx : Fix) : ∀ (n : Nat) (t : Tree) (l : List Nat), Den n 
     obtain ⟨sr, hsr, vr⟩ := build_valid fx n req l hr
     obtain ⟨so, hso, _⟩ := build_valid fx n opt lo ho
     exact ⟨.reqopt { req := sr, opt := so, cache := none, sum := sum }, (by simp only [buildTree, hsr, hso]), vr, level_small n vr⟩
-  | _ + 1, .disj _ _ _, _, h => h.elim
+  | n + 1, .disj sum k cs, l, h => by
+    obtain ⟨ls, hA, hk, hst, hmem⟩ := h
+    obtain ⟨ss, hss, hAs⟩ := mapM_all2 (hA.imp (fun t l h => build_valid fx n t l h))
+    obtain ⟨h1, h2⟩ := level_lawful fx n
+    refine ⟨_, (by simp only [buildTree, hss]; rfl), ?_, ?_⟩
+    · exact Disj.new_V h1 (fun h => h2.v h) sum hk hAs hst hmem
+    · intro x hx
+      obtain ⟨li, hli, hxl⟩ := Disj.cnt_pos (x := x) (ls := ls) (by have := (hmem x).mp hx; omega)
+      exact hAs.right_all (fun _ _ h => level_small n h) li hli x hxl
 
 end TantivyModel.DocSet
